@@ -745,3 +745,32 @@ func (w *world) foreignUnsyncedFile(img *simos.Image, key string) bool {
 	}
 	return last != nil && !last.Durable && last.Owner != A.id+1
 }
+
+// SimTraceForFixedSequence runs the fixed call sequence over simos without a
+// scheduler and returns the recorded operation kinds.
+func SimTraceForFixedSequence() []string {
+	fsys := simos.New()
+	simos.Current = fsys
+	simos.Budget = 0
+	simos.Mkdir(storeDir, 0o755)
+	fsys.Trace = nil
+	ctx := context.Background()
+	be, err := ctlog.NewLocalBackend(ctx, storeDir, slog.New(slog.NewTextHandler(io.Discard, nil)))
+	if err != nil {
+		panic(err)
+	}
+	imm := &ctlog.UploadOptions{Immutable: true}
+	data := bytes.Repeat([]byte("x"), 100)
+	must := func(err error) {
+		if err != nil {
+			panic(err)
+		}
+	}
+	must(be.Upload(ctx, "d1/d2/x", data, imm))
+	must(be.Upload(ctx, "d1/d2/x", data, imm))
+	must(be.Upload(ctx, "d1/y", data, nil))
+	_, err = be.Fetch(ctx, "d1/y")
+	must(err)
+	must(be.Discard(ctx, "d1/y"))
+	return fsys.Trace
+}
